@@ -220,4 +220,6 @@ def run(repo, tier):
     res.floor('SLICE-KIND', 4)
     from .C05 import labels_fast_path
     labels_fast_path(repo, res, repo.get_class('photutils.segmentation.core.SegmentationImage'))
+    from .common import run_generic_pack
+    run_generic_pack(repo, res, PROP, MODS)
     return res
